@@ -3,7 +3,7 @@ import PMV.Proofs.PyCoreInst
 /-
   C01 — With the default options a minified program behaves like the original.
   `Spec.PyCore` gives a first-order core of Python (ints, bools, strings, None; assignment, `if`,
-  `while`/`else`, `break`/`continue`, `try`/`except`/`else`/`finally`, `print`, `assert`, `raise`,
+  `while`/`else`, `for … in range(…)`/`else`, `break`/`continue`, `try`/`except`/`else`/`finally`, `print`, `assert`, `raise`,
   `global`, calls of module-level functions) a fuel-indexed definitional semantics whose observable is exactly what C01 names:
   the printed lines, how the run ends (normally / which exception), and the final globals.
   Proved, for every module, every nesting depth, through loops and calls, and for every fuel:
